@@ -188,8 +188,10 @@ def install_response_recorder(obs):
     return undo
 
 
-def build_tickets(c, s, rng, now):
-    """the authentication server's side of Kerberos for this case"""
+def build_tickets(c, s, rng, now, secure_key=None):
+    """the authentication server's side of Kerberos for this case (`secure_key`: the key of the secure server the tickets are
+    for, default SECURE_KEY — several deployments in one process have one each, see c17_multi.py)"""
+    if secure_key is None: secure_key = SECURE_KEY
     pid = c["pid"]
     if c["kd"] == 0: kd = kerberos.KeyDerivationOld(65000, 1024)
     else: kd = kerberos.KeyDerivationNew(1, 1)
@@ -211,7 +213,7 @@ def build_tickets(c, s, rng, now):
         return t.encrypt(user_key, s)
 
     fault = c.get("fault")
-    good_internal = server_ticket(OTHER_KEY if fault == "wrong-server-key" else SECURE_KEY,
+    good_internal = server_ticket(OTHER_KEY if fault == "wrong-server-key" else secure_key,
                                   stale=(fault == "stale"), source=(pid + 1 if fault == "wrong-source" else None))
     if c["first_for_secure"]:
         first = client_ticket(SECURE_PID, good_internal)
